@@ -9,7 +9,27 @@ From Coq Require Import ZArith List Bool Lia.
 From PyRTL Require Import Front.Ops Front.Signed Front.Barrel.
 From PyRTL Require Import Front.PySliceProofs Front.OpsProofs Front.SignedProofs Front.BarrelProofs
                           Front.KindsProofs.
+From PyRTL Require Import Gen.C06Src Front.SrcTie.
 Open Scope Z_scope.
+
+(* ------------------------------------------------------------------ translator tie *)
+(* Gen/C06Src.v is regenerated from /repo on every run (py/genfrag_C06.py): the model's
+   result-length rule IS the if/elif chain of WireVector._two_var_op, and the model's
+   Const(int)/Const(bool) conversion IS helperfuncs._convert_int/_convert_bool *)
+Theorem C06_width_rule_matches_source : forall o w, In o two_var_ops ->
+  two_var_result_len (op_char o) w = Ok (result_len o w).
+Proof. exact SrcTie.result_len_tie. Qed.
+Print Assumptions C06_width_rule_matches_source.
+
+Theorem C06_convert_int_matches_source : forall v bw s,
+  Ops.convert_int v bw s = res_opt (C06Src.convert_int v bw s).
+Proof. exact SrcTie.convert_int_tie. Qed.
+Print Assumptions C06_convert_int_matches_source.
+
+Theorem C06_convert_bool_matches_source : forall b bw s,
+  Ops.convert_bool b bw s = res_opt (C06Src.convert_bool b bw s).
+Proof. exact SrcTie.convert_bool_tie. Qed.
+Print Assumptions C06_convert_bool_matches_source.
 
 (* ------------------------------------------------------------------ + - *  *)
 Theorem C06_add_exact : forall a b, wf a -> wf b ->
@@ -36,6 +56,10 @@ Definition C06_mul_width_full_statement : Prop :=
 Theorem mul_width_refuted : exists a b, wf a /\ wf b /\ wd (op_mul a b) <> wd a + wd b.
 Proof. exact OpsProofs.mul_width_refuted. Qed.
 Print Assumptions mul_width_refuted.
+
+Theorem C06_mul_width_statement_refuted : ~ C06_mul_width_full_statement.
+Proof. exact OpsProofs.mul_width_statement_refuted. Qed.
+Print Assumptions C06_mul_width_statement_refuted.
 
 Theorem C06_mul_width_partial : forall a b, wf a -> wf b ->
   (wd a = wd b -> wd (op_mul a b) = wd a + wd b) /\ wd a + wd b <= wd (op_mul a b).
@@ -123,6 +147,11 @@ Theorem C06_concat2 : forall a b, wf a -> wf b ->
   concat [a; b] = (val a * 2 ^ wd b + val b, wd a + wd b).
 Proof. exact OpsProofs.concat2. Qed.
 Print Assumptions C06_concat2.
+
+Theorem C06_concat_list : forall args, Forall wf args -> args <> [] ->
+  concat_list args = (concat_val (rev args), sumw (rev args)).
+Proof. exact OpsProofs.concat_list_spec. Qed.
+Print Assumptions C06_concat_list.
 
 (* ------------------------------------------------------------------ <<= and extension *)
 Theorem C06_ilshift_zero_ext_or_trunc : forall a dw, wf a -> 1 <= dw ->
@@ -242,12 +271,12 @@ Proof. exact KindsProofs.operand_kinds_agree. Qed.
 Print Assumptions C06_operand_kinds_agree.
 
 Theorem C06_const_int_unsigned : forall v, 0 <= v ->
-  exists w, convert_int v None false = Some (v, w) /\ wf (v, w) /\ (forall w', 1 <= w' -> v < 2 ^ w' -> w <= w').
+  exists w, Ops.convert_int v None false = Some (v, w) /\ wf (v, w) /\ (forall w', 1 <= w' -> v < 2 ^ w' -> w <= w').
 Proof. exact KindsProofs.const_int_unsigned. Qed.
 Print Assumptions C06_const_int_unsigned.
 
 Theorem C06_const_int_signed : forall v,
-  exists r, convert_int v None true = Some r /\ wf r /\ sval r = v.
+  exists r, Ops.convert_int v None true = Some r /\ wf r /\ sval r = v.
 Proof. exact KindsProofs.const_int_signed. Qed.
 Print Assumptions C06_const_int_signed.
 
